@@ -225,20 +225,19 @@ type qpStream struct {
 	final int64  // final size known from accepted frames, -1 unknown
 	sent  qpSet  // byte ranges the peer has sent
 	// reset bookkeeping (C32)
-	resetCodes       []uint64
-	reset            bool
-	finBeforeReset   bool // a FIN had been processed before the first reset
-	readAllAtReset   bool // ... and the application had read everything up to it
-	readPos          int64
-	app              *Stream
-	appClosedRead    bool
-	appClosedWrite   bool
-	finishedCounted  bool
-	forgotten        bool // the application finished both directions: the conn may drop the stream
-	referenced       bool // a frame naming exactly this stream was accepted
-	peerFinSent      bool
-	closeReadHigh    int64 // C20 extension: highest offset at the time of CloseRead (-1: not closed)
-	dataAfterCloseRd bool
+	resetCodes      []uint64
+	reset           bool
+	finBeforeReset  bool // a FIN had been processed before the first reset
+	readAllAtReset  bool // ... and the application had read everything up to it
+	readPos         int64
+	app             *Stream
+	appClosedRead   bool
+	appClosedWrite  bool
+	finishedCounted bool
+	forgotten       bool // the application finished both directions: the conn may drop the stream
+	referenced      bool // a frame naming exactly this stream was accepted
+	peerFinSent     bool
+	closeReadHigh   int64 // configuration peer-closeread: highest offset at the time of CloseRead (-1: not closed)
 }
 
 type qpModel struct {
@@ -1290,9 +1289,6 @@ func (r *qpRun) sendStreamFrame(st *qpStream, off int64, n int, fin bool, mode s
 		if fin {
 			st.peerFinSent = true
 		}
-		if st.closeReadHigh >= 0 {
-			st.dataAfterCloseRd = true
-		}
 	}
 }
 
@@ -1408,9 +1404,6 @@ func (r *qpRun) runStreamOps(p qpStreamPlan) {
 			}
 			r.sendStreamFrame(st, off, n, fin, qpDName[op.mode])
 		case qpOpReset:
-			if sl.kind == "local-bidi" && !st.referenced && st.high == 0 && op.mode == qpRAtHigh {
-				// fine: resets the peer->conn direction of a conn-initiated stream
-			}
 			r.sendResetFrame(st, r.resolveReset(st, op), op.code, qpRName[op.mode])
 		case qpOpRead:
 			r.readOp(st, op)
